@@ -40,9 +40,21 @@ impl ElfSectionsTag {
     /// Get an iterator over the ELF sections.
     #[must_use]
     pub const fn sections(&self) -> ElfSectionIter {
-        let string_section_offset = (self.shndx * self.entry_size) as isize;
-        let string_section_ptr =
-            unsafe { self.sections.as_ptr().offset(string_section_offset) as *const _ };
+        let len = self.sections.len() as u64;
+        let entry_size = self.entry_size as u64;
+        // All section headers must be located inside this tag.
+        assert!(
+            self.number_of_sections as u64 * entry_size <= len,
+            "The section headers exceed the tag. The MBI seems to be corrupt."
+        );
+        // The same holds for the section header of the string table. If it
+        // is not inside this tag, section names can't be resolved.
+        let string_section_offset = self.shndx as u64 * entry_size;
+        let string_section_ptr = if string_section_offset + entry_size <= len {
+            unsafe { self.sections.as_ptr().add(string_section_offset as usize) }
+        } else {
+            core::ptr::null()
+        };
         ElfSectionIter {
             current_section: self.sections.as_ptr(),
             remaining_sections: self.number_of_sections,
@@ -323,6 +335,10 @@ impl ElfSection<'_> {
     }
 
     unsafe fn string_table(&self) -> *const u8 {
+        assert!(
+            !self.string_section.is_null(),
+            "The section header of the string table is not part of the tag"
+        );
         let addr = match self.entry_size {
             40 => (*(self.string_section as *const ElfSectionInner32)).addr as usize,
             64 => (*(self.string_section as *const ElfSectionInner64)).addr as usize,
